@@ -7,6 +7,7 @@
 #pragma once
 
 #include <pika/config.hpp>
+#include <pika/config/verif_hooks.hpp>
 
 #if defined(PIKA_HAVE_STDEXEC)
 # include <pika/execution_base/stdexec_forward.hpp>
@@ -213,6 +214,7 @@ namespace pika::split_detail {
             os.reset();
 
             predecessor_done = true;
+            PIKA_VERIF_POINT(::pika::verif::ss_done, this, 0, 0);
 
             {
                 // We require taking the lock here to synchronize with
@@ -285,6 +287,7 @@ namespace pika::split_detail {
         {
             if (predecessor_done)
             {
+                PIKA_VERIF_POINT(::pika::verif::ss_add, this, 0, 1);
                 // If we read predecessor_done here it means that one of
                 // set_error/set_stopped/set_value has been called and
                 // values/errors have been stored into the shared state.
@@ -298,10 +301,12 @@ namespace pika::split_detail {
                 // If predecessor_done is false, we have to take the
                 // lock to potentially add the continuation to the
                 // vector of continuations.
+                PIKA_VERIF_POINT(::pika::verif::ss_add, this, 0, 0);
                 std::unique_lock<mutex_type> l{mtx};
 
                 if (predecessor_done)
                 {
+                    PIKA_VERIF_POINT(::pika::verif::ss_add, this, 0, 2);
                     // By the time the lock has been taken,
                     // predecessor_done might already be true and we can
                     // release the lock early and call the continuation
@@ -318,6 +323,7 @@ namespace pika::split_detail {
                     // to the vector and the vector is not threadsafe in
                     // itself. The continuation will be called later
                     // when set_error/set_stopped/set_value is called.
+                    PIKA_VERIF_POINT(::pika::verif::ss_add, this, 0, 3);
                     continuations.emplace_back([this, &receiver]() mutable {
                         pika::detail::visit(stopped_error_value_visitor<Receiver>{receiver}, v);
                     });
